@@ -13,7 +13,10 @@ from props import c04_position as P4
 
 PROPERTY = 'C05'
 LEVEL = 'exploration'
-RULE = ('Every supported protocol version x every class of the 8 '
+RULE = ('Generated definitions also group 0-3 fields per entry; strings '
+        'also with BOM / NUL / whitespace edge characters; every 4th '
+        'case also on a context that first carried another version. '
+'Every supported protocol version x every class of the 8 '
         'get_packets tables (enumerated completely): definition-driven '
         'classes get values per field from strategies keyed by the wire '
         'type (always wire-representable: binary32-exact floats, on-grid '
